@@ -812,8 +812,23 @@ func c17Gating(c *Ctx) {
 				case route == "/_/api/interfaces":
 					want = ""
 				default:
-					c.R.Fail("R-C17-6", fn+":route:"+route, fn, c.pos(rg.ci.Pos()), "unexpected route "+route, "documented routes only", "undocumented debug route")
-					continue
+					// another route (a build-info endpoint, say): the property only constrains what serves the
+					// metrics and the profiler, so what matters is the handler, not the path
+					want = "-"
+					if args := rg.ci.Common().Args; len(args) >= 1 {
+						h := p.Of(args[len(args)-1])
+						switch {
+						case h.Contains(func(x *an.Expr) bool {
+							return (x.Op == an.OpFunc || x.Op == an.OpClosure || x.Op == an.OpCall) && x.Fn != nil && x.Fn.Pkg != nil && x.Fn.Pkg.Pkg.Path() == "net/http/pprof"
+						}):
+							want = "PProf"
+						case h.Contains(func(x *an.Expr) bool { return x.Op == an.OpParam && x.Name == "prom" }) || strings.Contains(h.String(), "promhttp"):
+							want = "Prometheus"
+						}
+					}
+				}
+				if want == "-" {
+					continue // neither the metrics nor the profiler: not constrained by C17
 				}
 				ok2 := true
 				fact := "unconditional"
